@@ -440,6 +440,9 @@ CORPUS = [
     "from Reduino.Communication import SerialMonitor\nmon = SerialMonitor(9600)\nxs = [1, 2, 3]\nname = 'abc'\nk = 1\nmon.write(len(name) + len(xs) + xs[k])\nfor i in range(1, 3):\n    mon.write(i)\n",
     "from Reduino.Communication import SerialMonitor\nmon = SerialMonitor(9600)\nys = [i * 2 for i in range(3)]\nys.append(4)\nmon.write(len(ys))\nys = 5\n",
     "from Reduino.Communication import SerialMonitor\nmon = SerialMonitor(9600)\nzs = [1.5, 2.5]\nmon.write(zs[0])\ndef g(*args):\n    return 1\nmon.write(g(1))\nfor i in range(2, 9, 3):\n    pass\n",
+    # chained comparisons whose middle operand is a call / another chain (emitted through temporaries)
+    "from Reduino.Sensors import Potentiometer\nfrom Reduino.Communication import SerialMonitor\nmon = SerialMonitor(9600)\npot = Potentiometer('A0')\ny = 3\nz = 9\nwhile True:\n    if 100 < pot.read() < 900:\n        mon.write(1)\n"
+    "    ok = 1 <= abs(y) <= 4 < z\n    deep = 0 < (0 < (1 < y < 5) < 2) < 3\n    mon.write(ok)\n",
     # several calls of one untyped helper with different argument types inside one condition
     "from Reduino.Communication import SerialMonitor\nmon = SerialMonitor(9600)\ndef scale(v):\n    return v * 2\ng = 2.5\nk = 0\nif scale(3) < scale(g):\n    mon.write(1)\nelif scale('a') == scale(k):\n    mon.write(2)\n"
     "while scale(k) < scale(g) - 1:\n    k = k + 1\nmon.write(k)\n",
@@ -481,7 +484,10 @@ order = json.loads(sys.argv[3])
 out = []
 for i in order:
     try:
-        out.append([i, hashlib.sha256(emit(parse(corpus[i])).encode()).hexdigest()])
+        prog = parse(corpus[i])
+        first = emit(prog)
+        again = emit(prog)          # emit() reads the Program: a second emission of the same object is the same text
+        out.append([i, hashlib.sha256(first.encode()).hexdigest() if first == again else "EMIT-TWICE-DIFFERS " + hashlib.sha256(again.encode()).hexdigest()[:12]])
     except Exception as ex:
         out.append([i, "EXC " + type(ex).__name__ + ": " + str(ex)[:80]])
 print(json.dumps(out))
@@ -515,6 +521,9 @@ def replay_differ(tier, seed, out):
                 diffs.append({"hashseed": hs, "history": order, "error": r.stderr[-300:]})
                 continue
             for i, h in json.loads(r.stdout):
+                if str(h).startswith("EMIT-TWICE-DIFFERS"):
+                    diffs.append({"script": i, "hashseed": hs, "problem": "emit() of the same Program object a second time gives another text (emit changed its argument)", "source": corpus[i][-300:]})
+                    continue
                 if i not in ref:
                     ref[i] = (h, hs, order)
                 elif ref[i][0] != h:
